@@ -106,6 +106,13 @@ def register(m):
       "            components = _subs_with_point(self._point_function, self._coordinate_system, point_)\n",
       "            components = list(self._point_function)\n            for i, s in enumerate(self._coordinate_system.coord_system.base_scalars()):\n"
       "                components = [c.subs(s, point_.coordinate(i)) for c in components]\n", "J8")
+    ELEM = "symplyphysics/core/geometry/elements.py"
+    m("C13", "b4-curve-element-accepts-curvilinear", ELEM,
+      "    if trajectory.coordinate_system.coord_system_type != CoordinateSystem.System.CARTESIAN:\n        coord_name_from", "    if False:\n        coord_name_from", "J1",
+      note="the genuine defect repaired in 6b00d99")
+    m("C13", "b4-curve-element-refuses-spherical-only", ELEM,
+      "    if trajectory.coordinate_system.coord_system_type != CoordinateSystem.System.CARTESIAN:\n        coord_name_from",
+      "    if trajectory.coordinate_system.coord_system_type == CoordinateSystem.System.SPHERICAL:\n        coord_name_from", "J1")
     # C09 N1: factories hand out fresh systems
     m("C09", "b2-transform-returns-argument", CSYS,
       ") -> CoordinateSystem:\n    new_coord_system = from_system.coord_system.create_new(",
